@@ -123,7 +123,7 @@ def cmd_check(pid, tier):
             errors.append(e["error"])
     if errors:
         for e in errors[:2]:
-            print(f"HARNESS-ERROR property={pid} {e[:2500]}", file=sys.stderr)
+            print(f"HARNESS-ERROR property={pid} {e[:400]} ... {e[-900:]}", file=sys.stderr)
         if len(errors) > 2:
             print(f"HARNESS-ERROR property={pid} ... and {len(errors) - 2} more shard errors", file=sys.stderr)
         return 2
